@@ -46,6 +46,12 @@ def gdt_state(I, MAX, lo=1, hi=None):
     return st, obj
 
 
+def len_range(I, st):
+    """what the path knows about `len`: its interval component refined by the bits the path fixed"""
+    r = I.rng_of(st, I.norm(st, BV.sym(64, 'len')))
+    return [(a, b) for a, b in r] if r else r
+
+
 def L(st, k=1, c=0):
     """k * len + c as an affine form (len may have been pinned to a constant on this path)"""
     r = st.rng.get('len')
@@ -68,7 +74,7 @@ def run(chk):
     chk.guard('gdt', 'capacity assertions', lambda: bad_capacity(chk))
     chk.guard('gdt', 'entry value and default constructors', lambda: entry_and_defaults(chk))
     chk.guard('layout', 'lgdt operand', lambda: dtp_layout(chk))
-    chk.guard('asm-options', 'lgdt', lambda: asm_not_pure(chk, chk.I, 'asm-options', ['src/instructions/tables.rs'], 5))
+    chk.guard('asm-options', 'lgdt', lambda: asm_not_pure(chk, chk.I, 'asm-options', ['src/instructions/tables.rs'], 1))
     chk.floor('obligations', len(chk.obs), 146)
 
 
@@ -139,7 +145,7 @@ def capacity(chk, MAX):
                 if nslots == 2 and ok:
                     ok = is_aff(I, x.st, slots[1][0], L(x.st, 1, 1)) and same(entry_bits(slots[1][1]), BV.sym(64, 'h'))
                 ok = ok and is_aff(I, x.st, ln, L(x.st, 1, nslots))
-                ok = ok and x.st.rng.get('len') == [(1, MAX - nslots)]
+                ok = ok and len_range(I, x.st) == [(1, MAX - nslots)]
                 # selector: index = first slot (old len), RPL = DPL, TI = 0  ->  8 * len + DPL, no truncation
                 sel = inner(x.val)
                 ok = ok and sel.w == 16 and is_aff(I, x.st, sel, L(x.st, 8, dpl))
@@ -149,7 +155,7 @@ def capacity(chk, MAX):
             okp = all(x.kind == 'panic' for x in pans) and bool(pans)
             for x in pans:
                 okp = okp and same(x.st.mem[('arg', 'self')], I.resub(x.st, obj))
-                r = x.st.rng.get('len')
+                r = len_range(I, x.st)
                 okp = okp and r is not None and r == [(max(1, MAX - nslots + 1), MAX)]
             chk.ob('append', 'append%s(%s, DPL %d): panics exactly when len > MAX - %d, leaving the table unchanged' % (tag, variant, dpl, nslots), okp,
                    'panic paths %r' % ([(x.val, x.st.rng.get('len')) for x in pans],), fn_site(I, G + 'append'))
@@ -192,7 +198,12 @@ def capacity(chk, MAX):
     st.rng['n'] = [(0, (1 << 64) - 1)]
     st.mem[('arg', 'slice')] = Array('raw', mk=lambda nm: BV.sym(64, nm), length=BV.sym(64, 'n'))
     fn_ = G + 'from_raw_entries'
-    o = r1(fn_, [Ref(('arg', 'slice'))], st, keep=True)
+    saved_unroll = I.unroll_limit
+    I.unroll_limit = 0      # this rule reads the loop's summary (header state, one iteration, exit), for every MAX alike
+    try:
+        o = r1(fn_, [Ref(('arg', 'slice'))], st, keep=True)
+    finally:
+        I.unroll_limit = saved_unroll
     f = I.fn[fn_]
     byname = {v: int(k) for k, v in f['dbg'].items()}
     # the loop counter and the table under construction are found by what they hold, not by their names: at the loop header the counter is
